@@ -7,7 +7,7 @@
 (*                                                                         *)
 (* Tier 1 = quick bounds, tier 2 = thorough bounds.                        *)
 (***************************************************************************)
-EXTENDS PdesyProps
+EXTENDS PdesyProps, TLC
 
 \* ---- constructors (defaults as in harness/gen.py) -----------------------
 Task(work, prog, auto, rate, needF, comp, teams, wps, rank) ==
@@ -169,6 +169,54 @@ SortFamily(tier) ==
        \cup SortTaskCases(3, {0, 1, 2}, {1, 2, 3})
        \cup SortWorkplaceCases(3, {0, 1, 2}, {-1, 0, 1})
 
+\* ---- FamReport: inputs of the reporting functions (C19) ---------------------------------
+SeqsUpTo(A, n) == UNION { [1..k -> A] : k \in 0..n }
+TaskAlphabet == {"NONE", "READY", "WORKING", "FINISHED"}
+ResAlphabet == {"FREE", "WORKING", "ABSENCE"}
+AlphabetOf(cls) == IF cls \in {"task", "component"} THEN TaskAlphabet ELSE ResAlphabet
+GanttCases(n) ==
+  { [fn |-> "gantt", cls |-> cls, log |-> lg, m2 |-> m]
+    : cls \in {"task", "component"}, lg \in SeqsUpTo(TaskAlphabet, n), m \in 0..2 }
+  \cup { [fn |-> "gantt", cls |-> cls, log |-> lg, m2 |-> m]
+    : cls \in {"worker", "facility"}, lg \in SeqsUpTo(ResAlphabet, n + 1), m \in 0..2 }
+RowCases(n) ==
+  { [fn |-> "rows", cls |-> cls, log |-> lg, m2 |-> m, unit |-> u, viewReady |-> v]
+    : cls \in {"task", "component"}, lg \in SeqsUpTo(TaskAlphabet, n), m \in {0, 2}, u \in {2, 60, 86400},
+      v \in BOOLEAN }
+  \cup { [fn |-> "rows", cls |-> cls, log |-> lg, m2 |-> m, unit |-> u, viewReady |-> v]
+    : cls \in {"worker", "facility"}, lg \in SeqsUpTo(ResAlphabet, n), m \in {1, 2}, u \in {2, 60},
+      v \in BOOLEAN }
+ExtractCases(n, BA) ==
+  { [fn |-> "extract", cls |-> cls, logs |-> <<a, b, <<>> >>, state |-> s, times |-> t]
+    : cls \in {"task", "component"}, a \in [1..n -> TaskAlphabet], b \in [1..(n - 1) -> BA],
+      s \in TaskAlphabet, t \in {<<>>, <<0>>, <<1>>, <<0, 1>>, <<1, 2>>, <<n - 1>>, <<n>>, <<0, n + 3>>} }
+  \cup { [fn |-> "extract", cls |-> cls, logs |-> <<a, b, <<>> >>, state |-> s, times |-> t]
+    : cls \in {"worker", "facility"}, a \in [1..n -> ResAlphabet], b \in [1..(n - 1) -> ResAlphabet],
+      s \in {"FREE", "WORKING"}, t \in {<<>>, <<0>>, <<1>>, <<0, 1>>, <<1, 2>>, <<n - 1>>, <<n>>} }
+LastDateCases ==
+  { [fn |-> "lastdate", time |-> tm, unit |-> u, last |-> d]
+    : tm \in 0..5, u \in {1, 60, 86400}, d \in {0, 86400, 1000000} }
+ReportFamily(tier) ==
+  IF tier = 1 THEN GanttCases(4) \cup RowCases(3) \cup ExtractCases(3, {"READY", "WORKING"}) \cup LastDateCases
+  ELSE GanttCases(6) \cup RowCases(4) \cup ExtractCases(3, TaskAlphabet) \cup LastDateCases
+
+\* ---- FamSub: parent projects around one sub-project task (C20) -----------------------------
+\* Q = su (sub-project unit seconds) so that the configured rate pu/su and work D are integers
+\* in units of 1/Q; the harness fills in work and rate of task 2 from what the library configures.
+\* position: 1 head, 2 after an FS predecessor, 3 between predecessor and successor, 4 SS successor
+FamSub(U, PABS) ==
+  { Cfg("sub", su,
+        << Task(2 * su, 0, FALSE, su, FALSE, 0, <<1>>, <<>>, 0),
+           [Task(0, 0, TRUE, 0, FALSE, 0, <<>>, <<>>, 1) EXCEPT !.sub = TRUE],
+           Task(su, 0, FALSE, su, FALSE, 0, <<1>>, <<>>, 2) >>,
+        CASE pos = 1 -> <<<<2, 3, "FS">>>>
+          [] pos = 2 -> <<<<1, 2, "FS">>>>
+          [] pos = 3 -> <<<<1, 2, "FS">>, <<2, 3, "FS">>>>
+          [] pos = 4 -> <<<<1, 2, "SS">>>>,
+        1, << PlainWorker(<<su, 0, su>>, 1) >>, <<>>, <<>>, <<>>,
+        Opt(pabs, FALSE, "TSLACK", 60)) @@ [units |-> <<su, pu>>]
+    : su \in U, pu \in U, pos \in 1..4, pabs \in PABS }
+
 \* ---- the named families and their bounds per tier -------------------------------------
 Family(name, tier) ==
   CASE name = "deps"  -> IF tier = 1
@@ -188,6 +236,8 @@ Family(name, tier) ==
                          THEN FamAbsence({<<>>, <<0>>, <<1, 2>>, <<0, 3, 30>>})
                          ELSE FamAbsence({<<>>, <<0>>, <<1>>, <<1, 2>>, <<0, 1, 2>>, <<2, 4>>,
                                           <<0, 3, 30>>, <<5, 6, 7>>})
+    [] name = "sub"   -> IF tier = 1 THEN FamSub({1, 2, 3, 5, 60}, {<<>>, <<1>>})
+                         ELSE FamSub({1, 2, 3, 5, 7, 60}, {<<>>, <<1>>, <<0, 2>>, <<3, 4>>})
     [] name = "pert"  -> IF tier = 1 THEN FamPert(3, {0, 1, 2}) ELSE FamPert(4, {0, 1, 2})
     [] name = "place" -> IF tier = 1 THEN FamPlace({2, 3}, {1, 2}, {0, 1, 2}, {<<>>, <<2>>})
                          ELSE FamPlace({2, 3, 4}, {1, 2}, {0, 1, 2}, {<<>>, <<2>>})
